@@ -6,7 +6,7 @@ use bio::seq_analysis::orf::Finder;
 use std::collections::BTreeSet;
 
 pub struct C20;
-const N_DIRECTED: u64 = 12;
+const N_DIRECTED: u64 = 13;
 
 fn all_codons(letters: &[u8]) -> Vec<[u8; 3]> {
     let mut v = vec![];
@@ -85,7 +85,8 @@ impl C20 {
         let finder = Finder::new(starts.iter().collect(), stops.iter().collect(), min_len);
         let desc = |w: String| {
             Obj::new()
-                .b("seq", seq)
+                .b("seq", tail(seq))
+                .u("seq_len", seq.len() as u64)
                 .d("start_codons", &starts.iter().map(|c| String::from_utf8_lossy(c).to_string()).collect::<Vec<_>>())
                 .d("stop_codons", &stops.iter().map(|c| String::from_utf8_lossy(c).to_string()).collect::<Vec<_>>())
                 .u("min_len", min_len as u64)
@@ -327,6 +328,22 @@ impl Monitor for C20 {
                     for _ in 0..10 {
                         self.revcomp_case(ctx, rng);
                     }
+                }
+                12 => {
+                    // a reading frame longer than 2^16 bases with nested starts, inside a 230 000-base sequence
+                    if ctx.tiny() {
+                        return;
+                    }
+                    let mut seq = rng.bytes_over(b"ACGT", 10_001);
+                    seq.extend_from_slice(b"ATG");
+                    for i in 0..70_000 {
+                        seq.extend_from_slice(if i % 9_000 == 8_999 { b"ATG" } else { b"GCA" });
+                    }
+                    seq.extend_from_slice(b"TAA");
+                    seq.extend(rng.bytes_over(b"ACGT", 10_000));
+                    ctx.count("orf_sequences_longer_than_65536", 1);
+                    self.orf_case(ctx, rng, &seq, &std_starts, &std_stops, 100);
+                    self.orf_case(ctx, rng, &seq, &std_starts, &std_stops, 209_000);
                 }
                 _ => self.orf_case(ctx, rng, b"", &std_starts, &std_stops, 0),
             }
